@@ -308,6 +308,8 @@ E4_FAMILIES = [
     ("handler", "interrupt handlers (registered through utvec): every 3-instruction body over 11 spill/reload/CSR instructions between the two uscratch swaps (1247; thorough: 4 instructions)"),
     ("cfg", "control-flow shapes: three slots between three labels, each a branch / jump / call / exit or print ecall / plain instruction, 12^3 (1728)"),
     ("br0", "every branch mnemonic and pseudo-branch x every operand coincidence (two registers, x0 on either side, same register, x0 twice), forwards and backwards (116)"),
+    ("extreme", "every 3-instruction body over 12 instructions with extreme immediates and stack positions (i32 edges in offsets, sp moved by +-2^31) (1728)"),
+    ("nest", "a conditional inside a loop: every choice of (pre-header, loop head, conditional arm, after the join) over a 7-instruction stack alphabet (2401; thorough: plus the exit instruction, 16807)"),
     ("mix", "every (stack, arithmetic, stack) instruction triple from the two alphabets (2744)"),
     ("fp", "a function keeping a frame pointer, with every pair of instructions from the stack alphabet plus sp moves in between (324)"),
     ("func", "every function body of 1-3 instructions over a 10-instruction save/restore alphabet, between the frame push and pop (1110; thorough: 1-4, 11110)"),
